@@ -186,7 +186,18 @@ func (ctx Context) createFirstLinePango(layout *text.TextLayoutPango,
 			utf8Position := utf8Positions[i]
 			outGlyph.TextOffset, outGlyph.TextLength = prevUtf8Position, utf8Position-prevUtf8Position
 			if _, in := outFont.Cmap[outGlyph.Glyph]; !in {
-				outFont.Cmap[outGlyph.Glyph] = textRunes[prevUtf8Position:utf8Position]
+				// in a right-to-left run the clusters come in decreasing order
+				start, end := prevUtf8Position, utf8Position
+				if start > end {
+					start, end = end, start
+				}
+				if end > len(textRunes) {
+					end = len(textRunes)
+				}
+				if start > end {
+					start = end
+				}
+				outFont.Cmap[outGlyph.Glyph] = textRunes[start:end]
 			}
 			prevUtf8Position = utf8Position
 
